@@ -156,6 +156,23 @@ def progs_op(T, n, st, k):
 
 
 def batches(rng, tier):
+    """The per-type batches of one family are cheap; they are run as one batch (fewer process starts)."""
+    import re
+    merged, order = {}, []
+    for b in _batches(rng, tier):
+        heavy = re.match(r"pairs-[iulm][23]", b.name)
+        key = b.name if heavy else re.sub(r"-[iulm](\d*)(?=-|$)", r"-T\1", b.name, count=1)
+        if key not in merged:
+            merged[key] = Batch(key, [], exhaustive=True, note=b.note)
+            order.append(key)
+        m = merged[key]
+        m.ops += b.ops
+        m.exhaustive = m.exhaustive and b.exhaustive
+    for key in order:
+        yield merged[key]
+
+
+def _batches(rng, tier):
     thorough = tier == "thorough"
     # ---- idist: all quadruples
     for T, (clo, chi, lo, hi) in RANGE.items():
